@@ -18,7 +18,7 @@ import ast
 from ..cfg import cfg_of, walk_local
 from ..dataflow import DefiniteAssignment
 from ..loader import AnalysisError, src
-from ..terms import terms_of, Terms, Env, show, subterms, contains
+from ..terms import negate, terms_of, Terms, Env, show, subterms, contains
 from .. import rules as R
 
 EXPLANATION = ("Static analysis of sparseSpACE/Function.py: guard-correlated definite assignment on the CFG of the call "
@@ -308,6 +308,42 @@ def run(prog, ctx):
     ctx.check(good, "C12.D5", R.key_of(call, "batch-shape"), call.loc(reshapes[0]) if reshapes else call.loc(),
               "batch result reshaped to (len(points), output_length())",
               "the batch result is not reshaped to (len(%s), self.output_length())" % pname)
+    # every return of the batch path (neither the empty batch nor a single point) hands out an array that was brought into that shape:
+    # a shortcut that returns cached rows as they are has the shape of whatever was cached (raw scalars after single-point calls)
+    cc = cfg_of(call)
+    tm0 = Terms(call.node, max_depth=0)
+    scal = ("call", ("a", ("n", "np"), "isscalar"), (("s", ("n", pname), ("c", "0")),), ())
+
+    def shaped(e, depth=0):
+        if depth > 3 or e is None:
+            return False
+        if isinstance(e, ast.Call):
+            f_ = e.func
+            nm_ = f_.attr if isinstance(f_, ast.Attribute) else (f_.id if isinstance(f_, ast.Name) else None)
+            if nm_ == "reshape":
+                shp = e.args[-1] if e.args else None
+                if len(e.args) >= 2 and not (isinstance(f_, ast.Attribute) and isinstance(f_.value, ast.Name) and f_.value.id in ("np", "numpy")):
+                    shp = ast.Tuple(elts=list(e.args), ctx=ast.Load())
+                t = tm0.term(shp) if shp is not None else None
+                return t in (("tuple", lenp, ol), ("tuple", ("c", "-1"), ol))
+        if isinstance(e, ast.Name):
+            b = R.reaching_unique_def(call, e.id, e)
+            return b is not None and b.kind == "assign" and shaped(b.value, depth + 1)
+        return False
+    nb = 0
+    for rn in [n for n in cc.nodes if n.kind == "stmt" and isinstance(n.ast, ast.Return) and n.idx in cc.reachable()]:
+        facts = [g for (g, gn) in R.dominating_guards(call, rn, tm0) if gn.kind == "test"]
+        empty_facts = (("cmp", "Eq", ("c", "0"), lenp), ("cmp", "Eq", lenp, ("c", "0")), ("not", lenp), ("not", ("n", pname)),
+                       ("cmp", "LtE", lenp, ("c", "0")), ("cmp", "Lt", lenp, ("c", "1")))
+        if scal in facts or any(g in empty_facts for g in facts):
+            continue
+        if not any(g == ("not", scal) or g == negate(scal) for g in facts):
+            continue                          # not clearly on the batch side of the dispatch: judged by the rules above
+        nb += 1
+        ctx.check(shaped(rn.ast.value), "C12.D5", R.key_of(call, "batch-return-shaped#%d" % nb), call.loc(rn.ast),
+                  "the batch path returns the array that was reshaped to (len(points), output_length())",
+                  "`%s` on the batch path returns an array that was not brought into the shape (len(%s), self.output_length()): rows cached by "
+                  "single-point calls are raw scalars, the result has shape (n,) instead of (n, 1) or is ragged" % (src(rn.ast)[:90], pname))
     asserts = [n for n in walk_local(call.node) if isinstance(n, ast.Assert)]
     good = False
     for a in asserts:
